@@ -22,59 +22,48 @@ def initPattern (n : Nat) : List Byte := (List.range n).map fun i => BitVec.ofNa
 def i32 (s : String) : Option (BitVec 32) := s.toInt?.map (BitVec.ofInt 32)
 def u32 (s : String) : Option U32 := s.toNat?.map (BitVec.ofNat 32)
 
-/-- harness-side "DMA" fill used by `prod`: `buffer[(head + i) % size] = b_i` -/
-def directFill (buf : List Byte) (head size : Nat) : List Byte → Nat → Option (List Byte)
-  | [], _ => some buf
-  | b :: bs, i => do
-      let buf' ← poke buf ((head + i) % size) b
-      directFill buf' head size bs (i + 1)
-
 def ints (l : List Int) : String :=
   if l.isEmpty then "-" else ",".intercalate (l.map toString)
 
-def stepRing (r : RingHead) (buf : List Byte) (w : List String) : Option (RingHead × List Byte × String) :=
+def parseOp (w : List String) : Option Op :=
   match w with
-  | ["putc", c] => do
-      let c ← parseBytes? c
-      let c ← c.head?
-      let (r', buf', rc) ← ringPutc r buf c
-      pure (r', buf', toString rc)
-  | ["getc"] => do
-      let (r', c) ← ringGetc r buf
-      pure (r', buf, toString c)
-  | ["write", d] => do
-      let d ← parseBytes? d
-      let (r', buf', n) ← ringWrite r buf d
-      pure (r', buf', toString n)
-  | ["read", n] => do
-      let n ← n.toNat?
-      let (r', out) ← ringRead r buf n
-      pure (r', buf, s!"{out.length} {bytesHex out}")
-  | ["mh1"] => pure (ringMoveHeadOne r, buf, "-")
-  | ["mt1"] => pure (ringMoveTailOne r, buf, "-")
-  | ["mh", n] => do let n ← u32 n; pure (ringMoveHead r n, buf, "-")
-  | ["mt", n] => do let n ← u32 n; pure (ringMoveTail r n, buf, "-")
-  | ["clean"] => pure (ringClean r, buf, "-")
-  | ["prod", d] => do
-      let d ← parseBytes? d
-      let buf' ← directFill buf r.head.toNat r.size.toNat d 0
-      pure (ringMoveHead r (BitVec.ofNat 32 d.length), buf', "-")
-  | ["prod1", d] => do
-      let d ← parseBytes? d
-      let c ← d.head?
-      let buf' ← poke buf r.head.toNat c
-      pure (ringMoveHeadOne r, buf', "-")
-  | ["set", h, t] => do
-      let h ← u32 h; let t ← u32 t
-      pure ({ r with head := h, tail := t }, buf, "-")
-  | ["fix", i] => do
-      let i ← i32 i
-      pure (r, buf, toString (ringFixupIndex r i).toInt)
-  | ["each"] =>
-      let l := ringForEach r r.size.toNat r.tail
-      pure (r, buf, ints (l.map fun x => (x.toNat : Int)))
-  | ["dump"] => pure (r, buf, bytesHex buf)
-  | _ => pure (r, buf, "bad-op")
+  | ["putc", c] => do let c ← parseBytes? c; let c ← c.head?; pure (.putc c)
+  | ["getc"] => pure .getc
+  | ["write", d] => do let d ← parseBytes? d; pure (.write d)
+  | ["read", n] => do let n ← n.toNat?; pure (.read n)
+  | ["prod", d] => do let d ← parseBytes? d; pure (.produce d)
+  | ["prod1", c] => do let c ← parseBytes? c; let c ← c.head?; pure (.produce1 c)
+  | ["cons", n] => do let n ← n.toNat?; pure (.consume n)
+  | ["cons1"] => pure .consume1
+  | ["mh", n] => do let n ← u32 n; pure (.moveHead n)
+  | ["mh1"] => pure .moveHeadOne
+  | ["mt", n] => do let n ← u32 n; pure (.moveTail n)
+  | ["mt1"] => pure .moveTailOne
+  | ["clean"] => pure .clean
+  | _ => none
+
+def showOut : Out → String
+  | .int v => toString v
+  | .count n => toString n
+  | .bytes d => s!"{d.length} {bytesHex d}"
+  | .unit => "-"
+
+def stepRingLine (r : RingHead) (buf : List Byte) (w : List String) : Option (RingHead × List Byte × String) :=
+  match parseOp w with
+  | some op => (stepRing r buf op).map fun (r', b', o) => (r', b', showOut o)
+  | none =>
+    match w with
+    | ["set", h, t] => do
+        let h ← u32 h; let t ← u32 t
+        pure ({ r with head := h, tail := t }, buf, "-")
+    | ["fix", i] => do
+        let i ← i32 i
+        pure (r, buf, toString (ringFixupIndex r i).toInt)
+    | ["each"] =>
+        let l := ringForEach r r.size.toNat r.tail
+        pure (r, buf, ints (l.map fun x => (x.toNat : Int)))
+    | ["dump"] => pure (r, buf, bytesHex buf)
+    | _ => pure (r, buf, "bad-op")
 
 def charOfInt (v : Int) : Byte := BitVec.ofInt 8 v
 /-- `char` element printed as the harness prints it: `(int)(signed char)` -/
@@ -168,7 +157,7 @@ def stepLine (s : St) (line : String) : St × String :=
     match s with
     | .none => (s, "bad-op")
     | .ring r buf =>
-        match stepRing r buf w with
+        match stepRingLine r buf w with
         | some (r', buf', out) => (.ring r' buf', out ++ " " ++ ringState r')
         | none => (s, "fault")
     | .typed t isChar =>
